@@ -30,4 +30,9 @@ CLAIMS = {
         "note": "Granularity is one file operation (a torn single write counts as 'partial'); OS-level durability (fsync) is not claimed by the property. The non-atomic restart rewrite (two crash points) is a listed known finding.",
         "technique": "typestate over file-operation sequences on CFG paths + exhaustive crash-prefix enumeration",
     },
+    "C09": {
+        "text": "Schedule shape decided on MonteCarlo.yield_moves/step/add_move: the due filter is equivalent to `step mod interval == 0` on an exhaustively enumerated bounded domain; every CFG path yields exactly once per slot of range(max_cycles) and nothing iff no move is due; forced moves are repeat(due, minimum_count) placed by a choice without replacement sized to the multiset; free slots are a fresh rng.choice over the due list with p = probability/Σprobability (value-numbered through the in-place division); the over-commit guard is equivalent to Σ+new > max_cycles and dominates the table insertion; step() calls the selected move exactly once per yielded name.",
+        "note": "Trusted: numpy's choice semantics (distinct elements without replacement; weight-0 elements never drawn). Not decided: selection frequencies; move tables edited behind add_move's back (from_dict, direct attribute edits).",
+        "technique": "CFG path enumeration + dataflow slicing/value numbering + bounded exhaustive predicate equivalence",
+    },
 }
